@@ -147,7 +147,7 @@ def wf_pre(regs):
         elif i == Z.SP2:
             cs.append(r == 0)    # registers[13] is the (always zero) 'high byte' slot of the 16-bit SP
         elif i == Z.IM:
-            cs.append(z3.And(r >= 0, r <= 2))
+            cs.append(z3.And(r >= 0, r <= 255))
         else:
             cs.append(z3.And(r >= 0, r <= 255))
     return cs
@@ -163,7 +163,7 @@ def reg_interval(i):
     if i == Z.SP2:
         return 0, 0
     if i == Z.IM:
-        return 0, 2
+        return 0, 255        # an 8-bit slot; the closures only test it for == 2
     return 0, 255
 
 
